@@ -30,6 +30,13 @@ func genScenarios(r *rng) []*scenario {
 					out = append(out, genInbox(r, ty, k))
 				}
 			}
+		case "fedfocus":
+			for _, ty := range inboxTypes {
+				for i := 0; i < *pubN; i++ {
+					k++
+					out = append(out, genInboxF(r, ty, k, true))
+				}
+			}
 		case "outbox":
 			for _, ty := range outboxTypes {
 				for i := 0; i < *pubN; i++ {
@@ -97,6 +104,9 @@ func runPub() {
 				var idx []string
 				for j := range sscs {
 					idx = append(idx, fmt.Sprint(len(runs)+j))
+					if len(sscs[j].Faults) == 0 {
+						em.world(len(runs)+j, sscs[j])
+					}
 				}
 				em.seqs = append(em.seqs, "["+strings.Join(idx, "; ")+"]")
 			}
